@@ -146,6 +146,31 @@ def pyExec : Nat → Env → PyStmt → Option (Env × Out)
   | _ + 1, env, .continue_ => some (env, .skipped)
   | _ + 1, env, .ret e => (pyEval env e).map (fun v => (env, .returned v))
 
+/-! ### a whole FUNCTION (`FUNCPrint`): parameters, LOCAL variables, body -/
+
+structure Func where
+  params : List String
+  locals : List (String × Option Expr)      -- in declaration order; the initial value, when one is declared
+  body : Stmt
+  deriving Repr
+
+/-- the statements `FUNCPrint` writes between the `def` line and the body: one assignment per LOCAL variable that has an
+initial value (regenerated `localsInitialised`; before fixes/C18-19: nothing).  A LOCAL variable without one is written
+`x = None`; it is left unbound here — reading it before an assignment is an error either way (TypeError on None). -/
+def localsInit : List (String × Option Expr) → Stmt
+  | [] => .nop
+  | (x, some e) :: rest => .seq (.assign x e) (localsInit rest)
+  | (_, none) :: rest => localsInit rest
+
+/-- the parameter names of the `def` line: keyword-escaped (regenerated `paramsEscaped`; before fixes/C18-18: as declared) -/
+def defParams (f : Func) : List String := if paramsEscaped then f.params.map pyName else f.params
+
+/-- the Python function: bind the arguments to the parameter names of the `def` line, run what is written below it -/
+def pyCall (fuel : Nat) (f : Func) (args : List V) : Option (Env × Out) :=
+  match tr (if localsInitialised then .seq (localsInit f.locals) f.body else f.body) with
+  | some p => pyExec fuel ((defParams f).zip args) p
+  | none => none
+
 end StepModel.GenPy.Stmt
 
 namespace StepModel.GenPy.Spec.Stmt
@@ -225,5 +250,10 @@ def exec : Nat → Env → Stmt → Option (Env × Out)
   | _ + 1, env, .skip => some (env, .skipped)
   | _ + 1, env, .escape => some (env, .escaped)
   | _ + 1, env, .ret e => (Spec.Body.eval env e).map (fun v => (env, .returned v))
+
+/-- ISO 10303-11 9.5.1 / 13: the parameters are bound to the arguments, the LOCAL variables are given their initial
+values in declaration order (those without one are indeterminate: unbound), the body runs -/
+def call (fuel : Nat) (f : Func) (args : List V) : Option (Env × Out) :=
+  exec fuel (f.params.zip args) (.seq (localsInit f.locals) f.body)
 
 end StepModel.GenPy.Spec.Stmt
